@@ -4,7 +4,7 @@
 From Coq Require Import List Bool ZArith.
 From Coq.Strings Require Import Byte.
 Import ListNotations.
-From SV Require Import Text G_c03 C03_Model C03_Lemmas C03_Fts C03_Hits.
+From SV Require Import Text G_c03 C03_Model C03_Lemmas C03_Fts C03_Hits C03_Chain C03_Write.
 
 (* the modelled chains are the regenerated priority lists FMTS_ALL, which start with FMTS *)
 Theorem C03_chains_pinned :
@@ -105,6 +105,92 @@ Example C03_witness_hits :
   hit_fields_ok tab (demo_hit (bs "95.408"%bs)) = true /\ hit_fields_ok ","%byte (demo_hit (bs "0.954"%bs)) = true /\
   ident_percent_ok (bs "95.408"%bs) = true /\ ident_fraction_ok (bs "95.408"%bs) = false /\ ident_fraction_ok (bs "0.954"%bs) = true.
 Proof. exact witness_hits. Qed.
+
+(* WHOLE-CHAIN soundness for the hit-table renderings (renderer models compared with the harness renderers and the real
+   readers on every run).  BLAST outfmt 6 (sep = tab) / 10 (sep = ",", given as option) and MMseqs2 fmtmode 0: the earlier
+   sniffers gff, genbank, infernal reject; MMseqs2 is asked before BLAST and the documented identity discriminator is the
+   hypothesis: a fraction in [0,1] -> mmseqs; not a fraction but a percentage in [0,100] -> blast. *)
+Theorem C03_detect_hits_sound : forall o sep rows,
+  wf_hits sep rows = true -> (sep = tab \/ sep = ","%byte) -> o_outfmt o = None -> sep_or o tab = sep ->
+  (ident_fraction_ok (ident_of rows) = true -> detect Fts o (render_hits sep rows) = DFound (bs "mmseqs"%bs)) /\
+  (ident_fraction_ok (ident_of rows) = false -> ident_percent_ok (ident_of rows) = true ->
+   detect Fts o (render_hits sep rows) = DFound (bs "blast"%bs)).
+Proof. exact detect_hits_sound. Qed.
+Print Assumptions C03_detect_hits_sound.
+
+(* MMseqs2 fmtmode 4 (a row of >= 4 column names from the regenerated vocabulary, not all of them Infernal keywords) *)
+Theorem C03_detect_mmseqs4_sound : forall o names rows,
+  wf_mmseqs4 names rows = true -> sep_or o tab = tab ->
+  detect Fts o (render_mmseqs4 names rows) = DFound (bs "mmseqs"%bs).
+Proof. exact detect_mmseqs4_sound. Qed.
+Print Assumptions C03_detect_mmseqs4_sound.
+
+(* BLAST outfmt 7 ("# <PROGRAM> <version>" with BLAST in the program name, >= 100 characters of tab-free comment lines
+   (Query / Database / Fields / hits found) before the first hit) *)
+Theorem C03_detect_blast7_sound : forall o prog ver comments rows,
+  wf_blast7 prog ver comments rows = true -> sep_or o tab = tab ->
+  detect Fts o (render_blast7 prog ver comments rows) = DFound (bs "blast"%bs).
+Proof. exact detect_blast7_sound. Qed.
+Print Assumptions C03_detect_blast7_sound.
+
+(* Infernal tblout fmt 1/2/3: a "#..." header line of regenerated keywords (>= 100 characters, as all three formats have)
+   and a ruler line with 18/29/20/27 columns, both inside the 1000-character window; any hit lines *)
+Theorem C03_detect_infernal_sound : forall o l0 l1 rows,
+  wf_infernal l0 l1 rows = true -> detect Fts o (render_infernal l0 l1 rows) = DFound (bs "infernal"%bs).
+Proof. exact detect_infernal_sound. Qed.
+Print Assumptions C03_detect_infernal_sound.
+
+Example C03_witness_chain :
+  wf_hits tab [demo_hit (bs "0.954"%bs); demo_hit (bs "x"%bs)] = true /\
+  ident_fraction_ok (ident_of [demo_hit (bs "0.954"%bs)]) = true /\
+  wf_hits ","%byte [demo_hit (bs "95.408"%bs)] = true /\
+  wf_mmseqs4 demo_mm_names [demo_hit (bs "0.954"%bs)] = true /\
+  wf_blast7 (bs "BLASTN"%bs) (bs "2.15.0+"%bs) demo_b7_comments [demo_hit (bs "95.408"%bs)] = true /\
+  wf_infernal demo_inf_l0 demo_inf_l1 [bs "tRNA5 - NC_1 - cm 1 72 10 81 + no 1 0.50 0.0 71.4 1.4e-18 ! x"%bs] = true.
+Proof. exact witness_chain. Qed.
+
+(* the write-side decision (main.py:101-136 and the head of write / write_fts) equals its declarative first-match table,
+   with the consequences: fmt= wins, the two ValueError cases are exactly "archive= without a file name" and "neither
+   fname nor fmt", and without fmt the format comes from the extension (also for Path objects and inside archives) *)
+Theorem C03_write_resolve_table : forall w fa f fmt a, write_resolve w fa f fmt a = wtable w fa f fmt a.
+Proof. exact write_resolve_table. Qed.
+Print Assumptions C03_write_resolve_table.
+
+Theorem C03_write_errors : forall w fa f fmt a,
+  (write_resolve w fa f fmt a = WErrArchiveHandle <-> a <> ANone /\ is_name_arg f = None) /\
+  (write_resolve w fa f fmt a = WErrNoFmt <-> a = ANone /\ f = FNone /\ fmt = None).
+Proof. exact write_errors. Qed.
+Print Assumptions C03_write_errors.
+
+Theorem C03_write_fmt_option_wins : forall w fa f x a d, write_resolve w fa f (Some x) a = d ->
+  match d with
+  | WToStr y | WHandle y | WFile _ y | WArchive _ _ y => y = lower x
+  | WErrArchiveHandle => a <> ANone /\ is_name_arg f = None
+  | WErrNoFmt | WErrDetect => False
+  end.
+Proof. exact write_fmt_option_wins. Qed.
+Print Assumptions C03_write_fmt_option_wins.
+
+Theorem C03_write_by_extension : forall w fa p e stem,
+  In p (chain w) -> In e (p_exts p) ->
+  forallb (fun c => negb (byte_eqb c slash)) stem = true -> forallb (fun c => byte_eqb c dot) stem = false ->
+  write_resolve w fa (FStr (stem ++ dot :: e)) None ANone = WFile (stem ++ dot :: e) (p_name p) /\
+  write_resolve w fa (FPath (stem ++ dot :: e)) None ANone = WFile (stem ++ dot :: e) (p_name p) /\
+  write_resolve w fa (FStr (stem ++ dot :: e)) None ATrue = WArchive (stem ++ dot :: e) fa (p_name p).
+Proof. exact write_by_extension. Qed.
+Print Assumptions C03_write_by_extension.
+
+(* fmt given / omitted: when detection succeeds, reading with fmt omitted hands the same handle state (content, position,
+   kind) and the same options to the same plugin as reading with that fmt given; it fails exactly when nothing is detected *)
+Theorem C03_read_fmt_given_or_detected : forall w o h d h',
+  detect_h w o h = (DFound d, h') -> read_plan w o None h = read_plan w o (Some d) h.
+Proof. exact read_fmt_given_or_detected. Qed.
+Print Assumptions C03_read_fmt_given_or_detected.
+
+Theorem C03_read_fmt_omitted_fails_iff : forall w o h,
+  read_plan w o None h = None <-> (forall d, fst (detect_h w o h) <> DFound d).
+Proof. exact read_fmt_omitted_fails_iff. Qed.
+Print Assumptions C03_read_fmt_omitted_fails_iff.
 
 (* extension tables: every declared extension selects its own format, no extension is declared twice *)
 Theorem C03_ext_tables_ok :
